@@ -3,8 +3,6 @@
    Truncating variant (GetSegmentIntersectPt_lo, the default build): returns true and a point in the bounding
    box of the first segment within 1 + 2^-20 per axis of the exact crossing X = a + (tnum/det)(b - a)
    ([isect_accuracy_small_lo]).  The literal bound 1 is false ([Core_isect.isect_accuracy_small_lo_refuted]).
-
-   Structure of the argument:
      - det and the numerator of t are exact integers below 2^53 ([Core_float.fint]); det <> 0;
      - t_f = RN(tnum/det) with 2^-53 <= tnum/det < 1, so t_f > 0 (the first early exit is dead) and
        t_f >= 1 only if 1 - t <= 2^-52 (then the end point b is returned, 2^-26 from the crossing);
@@ -13,6 +11,18 @@
        representable); F2I64_trunc is Flocq's Ztrunc on finite values below 2^63, monotone, fixes integers,
        moves by less than 1;
      - the real inequality is turned into the integer form of [CoreSpec.isect_within].
+
+   Rounding variant (GetSegmentIntersectPt_hi, -DCLIPPER2_HI_PRECISION=1): the literal clause holds
+   ([isect_accuracy_small_hi], and with [Core_isect.isect_parallel_exact_hi] the whole [CoreSpec.isect_ok],
+   [isect_ok_small_hi]).
+     - the origin o is the floor of the centre of the intersection of the two bounding boxes; the constants
+       ln0c, ln1c are the values at o of the linear forms vanishing on the two lines; because the end points
+       of each segment are strictly on opposite sides of the other line, 2|lnc| <= |det| + |dx| + |dy|
+       ([origin_line]: a piecewise linear fact proved by lia after pushing the linear form through min/max);
+     - hence each product ln_dx * ln_c is below 2^25 |det| + 2^52: exact when |det| <= 2^27, and of
+       absolute error <= 2^-26 |det| otherwise ([prod_approx]); the quotient is within 2^-22 of X - o
+       ([hi_tail]); F2I64_rne is Flocq's ZnearestE, so the result is within 1/2 + 2^-22 of X, and in the box
+       because the box has integer corners ([hi_finish]).
    The proofs identify sub-terms of the generated definitions by shape (after [cbv zeta]). *)
 From Coq Require Import ZArith Reals Floats Lia Lra Bool.
 From Clip Require Import base.Geom base.FloatModel base.CSem gen.Gen_core model.CoreSpec proofs.Core_float proofs.Core_isect.
@@ -494,3 +504,532 @@ Proof.
     + unfold isect_within. cbv zeta. red_pxy. rewrite andb_true_iff, !Z.leb_le.
       split; assumption.
 Qed.
+
+(* ================================================================== the rounding variant *)
+
+(* ------------------------------------------------------------------ F2I64_rne is ZnearestE *)
+
+Definition rne_pos (m e : Z) : Z :=
+  if 0 <=? e then m * 2 ^ e
+  else let d := 2 ^ (- e) in
+       let q := m / d in let r := m mod d in
+       if 2 * r <? d then q
+       else if d <? 2 * r then q + 1
+       else if Z.even q then q else q + 1.
+
+Lemma ZnearestE_frac m dd : 0 < dd ->
+  ZnearestE (IZR m / IZR dd) =
+  let q := m / dd in let r := m mod dd in
+  if 2 * r <? dd then q else if dd <? 2 * r then q + 1 else if Z.even q then q else q + 1.
+Proof.
+  intros Pd. cbv zeta.
+  assert (Pr : (0 < IZR dd)%R) by (apply IZR_lt; exact Pd).
+  pose proof (Z.div_mod m dd ltac:(lia)) as DM.
+  pose proof (Z.mod_pos_bound m dd Pd) as MB.
+  set (q := m / dd) in *. set (r := m mod dd) in *.
+  assert (Ex : (IZR m / IZR dd = IZR q + IZR r / IZR dd)%R).
+  { rewrite DM, plus_IZR, mult_IZR. field. lra. }
+  assert (Fl : Zfloor (IZR m / IZR dd) = q) by (apply Zfloor_div; lia).
+  unfold Znearest. rewrite Fl, Ex.
+  replace (IZR q + IZR r / IZR dd - IZR q)%R with (IZR r / IZR dd)%R by ring.
+  assert (Hr : (0 <= IZR r < IZR dd)%R) by (split; [apply IZR_le|apply IZR_lt]; lia).
+  destruct (2 * r <? dd) eqn:E1.
+  - apply Z.ltb_lt in E1. apply IZR_lt in E1. rewrite mult_IZR in E1.
+    rewrite Rcompare_Lt; [reflexivity|].
+    apply Rmult_lt_reg_r with (IZR dd); [exact Pr|]. unfold Rdiv. rewrite Rmult_assoc, Rinv_l by lra. lra.
+  - apply Z.ltb_ge in E1.
+    assert (Cl : Zceil (IZR q + IZR r / IZR dd) = q + 1).
+    { apply Zceil_imp. replace (q + 1 - 1) with q by ring. rewrite plus_IZR.
+      assert (0 < IZR r)%R by (apply IZR_lt; lia).
+      assert (0 < IZR r / IZR dd < 1)%R.
+      { split; [apply Rdiv_lt_0_compat; lra|].
+        apply Rmult_lt_reg_r with (IZR dd); [exact Pr|]. unfold Rdiv. rewrite Rmult_assoc, Rinv_l by lra. lra. }
+      lra. }
+    destruct (dd <? 2 * r) eqn:E2.
+    + apply Z.ltb_lt in E2. apply IZR_lt in E2. rewrite mult_IZR in E2.
+      rewrite Rcompare_Gt; [exact Cl|].
+      apply Rmult_lt_reg_r with (IZR dd); [exact Pr|]. unfold Rdiv. rewrite Rmult_assoc, Rinv_l by lra. lra.
+    + apply Z.ltb_ge in E2. assert (E : dd = 2 * r) by lia.
+      rewrite Rcompare_Eq.
+      * rewrite Cl. destruct (Z.even q); reflexivity.
+      * rewrite E, mult_IZR. field. rewrite E, mult_IZR in Pr. lra.
+Qed.
+
+Lemma ZnearestE_IZR n : ZnearestE (IZR n) = n.
+Proof. apply (@Zrnd_IZR _ (valid_rnd_N (fun x => negb (Z.even x)))). Qed.
+
+Lemma ZnearestE_le x y : (x <= y)%R -> ZnearestE x <= ZnearestE y.
+Proof. apply (@Zrnd_le _ (valid_rnd_N (fun x => negb (Z.even x)))). Qed.
+
+Lemma ZnearestE_F2R_pos m e : ZnearestE (F2R (Float radix2 (Z.pos m) e)) = rne_pos (Z.pos m) e.
+Proof.
+  rewrite F2R_pos_split. unfold rne_pos. destruct (0 <=? e) eqn:E.
+  - apply ZnearestE_IZR.
+  - apply Z.leb_gt in E. apply ZnearestE_frac. apply Z.pow_pos_nonneg; lia.
+Qed.
+
+Lemma ZnearestE_opp x : ZnearestE (- x) = - ZnearestE x.
+Proof.
+  rewrite Znearest_opp. f_equal.
+  unfold Znearest. destruct (Rcompare _ _); try reflexivity.
+  rewrite negb_involutive. rewrite Z.even_opp, Z.even_add. cbn [Z.even].
+  destruct (Z.even (Zfloor x)); reflexivity.
+Qed.
+
+Lemma ZnearestE_abs_le x : (Rabs (IZR (ZnearestE x)) <= Rabs x + / 2)%R.
+Proof.
+  pose proof (Znearest_half (fun x => negb (Z.even x)) x) as H.
+  replace (IZR (ZnearestE x)) with (x - (x - IZR (ZnearestE x)))%R by ring.
+  eapply Rle_trans; [apply Rabs_triang|]. rewrite Rabs_Ropp. lra.
+Qed.
+
+Lemma F2I64_rne_real f r : freal f r -> (Rabs r < IZR (2 ^ 62))%R -> F2I64_rne f = ZnearestE r.
+Proof.
+  intros [Ff Rf] B.
+  assert (I : in_i64 (ZnearestE r) = true).
+  { pose proof (ZnearestE_abs_le r) as T. rewrite <- abs_IZR in T.
+    assert (Z.abs (ZnearestE r) < 2 ^ 63).
+    { apply lt_IZR. eapply Rle_lt_trans; [exact T|]. pow2. lra. }
+    unfold in_i64. apply andb_true_iff. split; [apply Z.leb_le|apply Z.ltb_lt]; lia. }
+  unfold F2I64_rne, F2Z_rne, F_decode. rewrite <- B2SF_Prim2B.
+  destruct (Prim2B f) as [s|s| |s m e He]; cbn [BinarySingleNaN.is_finite] in Ff; try discriminate Ff;
+    cbn [B2SF B2R] in *.
+  - subst r. rewrite ZnearestE_IZR in *. cbn [Z.leb]. destruct s; reflexivity.
+  - subst r. rewrite F2R_cond_Zopp in *.
+    fold (rne_pos (Z.pos m) e).
+    assert (E : ZnearestE (cond_Ropp s (F2R (Float radix2 (Z.pos m) e))) = apply_sign s (rne_pos (Z.pos m) e)).
+    { destruct s; cbn [cond_Ropp apply_sign]; [rewrite ZnearestE_opp|]; rewrite ZnearestE_F2R_pos; reflexivity. }
+    rewrite E in *. rewrite I. reflexivity.
+Qed.
+
+
+(* ------------------------------------------------------------------ geometry of the origin (integers only) *)
+(* sum of the end points of the intersection of two intervals, through a monotone affine map *)
+Lemma ends_sum k y1 y2 y3 y4 :
+  k * Z.max (Z.min y1 y2) (Z.min y3 y4) + k * Z.min (Z.max y1 y2) (Z.max y3 y4) =
+  Z.max (Z.min (k * y1) (k * y2)) (Z.min (k * y3) (k * y4)) +
+  Z.min (Z.max (k * y1) (k * y2)) (Z.max (k * y3) (k * y4)).
+Proof.
+  destruct (Z.le_ge_cases 0 k) as [K|K].
+  - repeat first [rewrite Z.mul_max_distr_nonneg_l by (exact K) | rewrite Z.mul_min_distr_nonneg_l by (exact K)].
+    reflexivity.
+  - assert (K' : k <= 0) by lia.
+    repeat first [rewrite Z.mul_max_distr_nonpos_l by (exact K') | rewrite Z.mul_min_distr_nonpos_l by (exact K')].
+    lia.
+Qed.
+
+(* the piecewise linear core: p + r and q + s of opposite signs *)
+Lemma ends_core p q r s w :
+  (p + r < 0 < q + s \/ q + s < 0 < p + r) ->
+  Z.abs (Z.max (Z.min p q) (Z.min 0 w) + Z.min (Z.max p q) (Z.max 0 w) +
+         (Z.max (Z.min r s) (Z.min 0 (- w)) + Z.min (Z.max r s) (Z.max 0 (- w))))
+  <= Z.abs (q + s - (p + r)).
+Proof. lia. Qed.
+
+(* o = floor of the centre of the intersection of the bounding boxes of a-b and c-d; f = the linear form
+   vanishing on the line c-d.  If a and b are strictly on opposite sides of that line, then
+   2 |f(o)| <= |f(b) - f(a)| + |dx2| + |dy2|. *)
+Lemma shift_max_min a b c d z : Z.max (Z.min a b) (Z.min c d) - z = Z.max (Z.min (a - z) (b - z)) (Z.min (c - z) (d - z)).
+Proof. lia. Qed.
+Lemma shift_min_max a b c d z : Z.min (Z.max a b) (Z.max c d) - z = Z.min (Z.max (a - z) (b - z)) (Z.max (c - z) (d - z)).
+Proof. lia. Qed.
+
+Lemma origin_line ax ay bx by_ cx cy dx dy ox oy rx ry :
+  let kx := dx - cx in let ky := dy - cy in
+  let fa := (ax - cx) * ky - (ay - cy) * kx in
+  let fb := (bx - cx) * ky - (by_ - cy) * kx in
+  (fa < 0 < fb \/ fb < 0 < fa) ->
+  2 * ox = Z.max (Z.min ax bx) (Z.min cx dx) + Z.min (Z.max ax bx) (Z.max cx dx) - rx -> 0 <= rx <= 1 ->
+  2 * oy = Z.max (Z.min ay by_) (Z.min cy dy) + Z.min (Z.max ay by_) (Z.max cy dy) - ry -> 0 <= ry <= 1 ->
+  2 * Z.abs ((ox - cx) * ky - (oy - cy) * kx) <= Z.abs (fb - fa) + Z.abs kx + Z.abs ky.
+Proof.
+  intros kx ky fa fb Hs Hox Hrx Hoy Hry.
+  assert (Lx : Z.max (Z.min ax bx) (Z.min cx dx) - cx = Z.max (Z.min (ax - cx) (bx - cx)) (Z.min 0 (dx - cx))) by (rewrite shift_max_min, Z.sub_diag; reflexivity).
+  assert (Hx : Z.min (Z.max ax bx) (Z.max cx dx) - cx = Z.min (Z.max (ax - cx) (bx - cx)) (Z.max 0 (dx - cx))) by (rewrite shift_min_max, Z.sub_diag; reflexivity).
+  assert (Ly : Z.max (Z.min ay by_) (Z.min cy dy) - cy = Z.max (Z.min (ay - cy) (by_ - cy)) (Z.min 0 (dy - cy))) by (rewrite shift_max_min, Z.sub_diag; reflexivity).
+  assert (Hy : Z.min (Z.max ay by_) (Z.max cy dy) - cy = Z.min (Z.max (ay - cy) (by_ - cy)) (Z.max 0 (dy - cy))) by (rewrite shift_min_max, Z.sub_diag; reflexivity).
+  pose proof (ends_sum ky (ax - cx) (bx - cx) 0 (dx - cx)) as E1.
+  pose proof (ends_sum (- kx) (ay - cy) (by_ - cy) 0 (dy - cy)) as E2.
+  assert (Hs' : ky * (ax - cx) + - kx * (ay - cy) < 0 < ky * (bx - cx) + - kx * (by_ - cy) \/
+                ky * (bx - cx) + - kx * (by_ - cy) < 0 < ky * (ax - cx) + - kx * (ay - cy)).
+  { replace (ky * (ax - cx) + - kx * (ay - cy)) with fa by (unfold fa; ring).
+    replace (ky * (bx - cx) + - kx * (by_ - cy)) with fb by (unfold fb; ring). exact Hs. }
+  pose proof (ends_core _ _ _ _ (ky * (dx - cx)) Hs') as C.
+  replace (ky * (bx - cx) + - kx * (by_ - cy) - (ky * (ax - cx) + - kx * (ay - cy))) with (fb - fa) in C
+    by (unfold fa, fb; ring).
+  replace (- kx * (dy - cy)) with (- (ky * (dx - cx))) in E2 by (unfold kx, ky; ring).
+  rewrite Z.mul_0_r in E1, E2.
+  rewrite <- E1, <- E2 in C.
+  rewrite <- Lx, <- Hx, <- Ly, <- Hy in C.
+  set (lx := Z.max (Z.min ax bx) (Z.min cx dx)) in *. set (hx := Z.min (Z.max ax bx) (Z.max cx dx)) in *.
+  set (ly := Z.max (Z.min ay by_) (Z.min cy dy)) in *. set (hy := Z.min (Z.max ay by_) (Z.max cy dy)) in *.
+  assert (E : 2 * ((ox - cx) * ky - (oy - cy) * kx) =
+              ky * (lx - cx) + ky * (hx - cx) + (- kx * (ly - cy) + - kx * (hy - cy)) - rx * ky + ry * kx).
+  { replace (2 * ((ox - cx) * ky - (oy - cy) * kx)) with ((2 * ox - 2 * cx) * ky - (2 * oy - 2 * cy) * kx) by ring.
+    rewrite Hox, Hoy. ring. }
+  assert (Rx : rx = 0 \/ rx = 1) by lia. assert (Ry : ry = 0 \/ ry = 1) by lia.
+  clear Hox Hoy Lx Hx Ly Hy E1 E2 Hs Hs'. clearbody lx hx ly hy fa fb.
+  set (F := (ox - cx) * ky - (oy - cy) * kx) in *.
+  set (t1 := ky * (lx - cx)) in *. set (t2 := ky * (hx - cx)) in *.
+  set (t3 := - kx * (ly - cy)) in *. set (t4 := - kx * (hy - cy)) in *.
+  clearbody F t1 t2 t3 t4.
+  Time destruct Rx as [-> | ->], Ry as [-> | ->]; lia.
+Qed.
+
+
+Lemma freal_sub f g x y : freal f x -> freal g y -> (Rabs (x - y) <= IZR (2 ^ 100))%R ->
+  freal (f - g)%float (RN (x - y)).
+Proof.
+  intros [Ff Rf] [Fg Rg] S. unfold freal. rewrite sub_equiv.
+  pose proof (Bminus_correct prec emax Hprec Hmax mode_NE (Prim2B f) (Prim2B g) Ff Fg) as C.
+  rewrite Rf, Rg in C. fold (RN (x - y)) in C. rewrite (RN_lt_emax _ S) in C.
+  destruct C as (C1 & C2 & _). split; assumption.
+Qed.
+
+(* a product of two exact integers: exact while it fits, relative error 2^-53 otherwise *)
+Lemma prod_approx f g x y D :
+  fint f x -> fint g y -> 1 <= D <= 2 ^ 53 -> Z.abs (x * y) <= 2 ^ 25 * D + 2 ^ 52 ->
+  exists P, freal (f * g)%float P /\ (Rabs (P - IZR (x * y)) <= IZR D / IZR (2 ^ 26))%R.
+Proof.
+  intros Ff Fg HD Hxy.
+  assert (PD : (1 <= IZR D)%R) by (apply IZR_le; lia).
+  destruct (Z_le_gt_dec D (2 ^ 27)) as [L|G].
+  - exists (IZR (x * y)). split.
+    + apply fint_freal, fint_mul; [exact Ff|exact Fg|]. unfold small. lia.
+    + replace (IZR (x * y) - IZR (x * y))%R with 0%R by ring. rewrite Rabs_R0. pow2. lra.
+  - assert (B : (Rabs (IZR x * IZR y) <= IZR (2 ^ 26) * IZR D)%R).
+    { rewrite <- !mult_IZR, <- abs_IZR. apply IZR_le. lia. }
+    assert (D53 : (IZR D <= IZR (2 ^ 53))%R) by (apply IZR_le; lia).
+    exists (RN (IZR x * IZR y)). split.
+    + apply freal_mul; [exact Ff|exact Fg|]. eapply Rle_trans; [exact B|]. pow2. lra.
+    + rewrite mult_IZR. pose proof (RN_err60 _ _ B) as E. pow2. lra.
+Qed.
+
+Lemma ZnearestE_ge_int h n : (IZR n - 1 < h - / 2)%R -> n <= ZnearestE h.
+Proof.
+  intros H. pose proof (Znearest_half (fun x => negb (Z.even x)) h) as Hh. apply Rabs_le_inv in Hh.
+  assert (n - 1 < ZnearestE h); [|lia]. apply lt_IZR. rewrite minus_IZR. lra.
+Qed.
+Lemma ZnearestE_le_int h n : (h + / 2 < IZR n + 1)%R -> ZnearestE h <= n.
+Proof.
+  intros H. pose proof (Znearest_half (fun x => negb (Z.even x)) h) as Hh. apply Rabs_le_inv in Hh.
+  assert (ZnearestE h < n + 1); [|lia]. apply lt_IZR. rewrite plus_IZR. lra.
+Qed.
+
+Section AxisHi.
+Variables a b o tnum det N : Z.
+Hypothesis NZ : det <> 0.
+Hypothesis Hfrac : 0 < tnum * Z.sgn det < Z.abs det.
+Hypothesis Hdet : Z.abs det <= 2 ^ 53.
+Hypothesis HN : N = (a - o) * det + tnum * (b - a).
+
+Let t : R := (IZR tnum / IZR det)%R.
+Let q : R := (IZR N / IZR det)%R.
+
+Lemma hi_q_eq : q = (IZR (a - o) + t * IZR (b - a))%R.
+Proof.
+  unfold q, t. rewrite HN, plus_IZR, !mult_IZR. field. apply not_0_IZR. exact NZ.
+Qed.
+
+Lemma hi_q_between : (IZR (Z.min a b - o) <= q <= IZR (Z.max a b - o))%R.
+Proof.
+  rewrite hi_q_eq.
+  pose proof (t_facts tnum det NZ Hfrac Hdet) as Tf. fold t in Tf.
+  assert (P53 : (0 < / IZR (2 ^ 53))%R) by (apply Rinv_0_lt_compat, IZR_lt; lia).
+  rewrite !minus_IZR.
+  destruct (Z.le_ge_cases a b) as [L|L].
+  - rewrite (Z.min_l a b L), (Z.max_r a b L). apply IZR_le in L. nra.
+  - rewrite (Z.min_r a b L), (Z.max_l a b L). apply IZR_le in L. nra.
+Qed.
+
+Hypothesis Ha : Z.abs a <= 2 ^ 25.
+Hypothesis Hb : Z.abs b <= 2 ^ 25.
+Hypothesis Ho : Z.abs o <= 2 ^ 25.
+
+(* h approximates q = X - o to 2^-22: the rounded result is in the box and within one unit *)
+
+Lemma hi_finish hf hr :
+  freal hf hr -> (Rabs (hr - q) <= / IZR (2 ^ 22))%R ->
+  let ip := o + F2I64_rne hf in
+  Z.min a b <= ip <= Z.max a b /\
+  1 * Z.abs ((ip - a) * det - tnum * (b - a)) <= 1 * Z.abs det.
+Proof.
+  intros Fh Eh. cbv zeta.
+  pose proof hi_q_between as [Q1 Q2].
+  assert (B1 : - 2 ^ 26 <= Z.min a b - o) by lia. assert (B2 : Z.max a b - o <= 2 ^ 26) by lia.
+  apply IZR_le in B1, B2. rewrite opp_IZR in B1.
+  apply Rabs_le_inv in Eh.
+  assert (Bh : (Rabs hr < IZR (2 ^ 62))%R) by (apply Rabs_def1; pow2; lra).
+  rewrite (F2I64_rne_real _ _ Fh Bh).
+  split.
+  - assert (Z.min a b - o <= ZnearestE hr) by (apply ZnearestE_ge_int; pow2; lra).
+    assert (ZnearestE hr <= Z.max a b - o) by (apply ZnearestE_le_int; pow2; lra).
+    lia.
+  - apply within_of_real; [exact NZ|lia|]. fold t.
+    pose proof (Znearest_half (fun x => negb (Z.even x)) hr) as Hh.
+    rewrite plus_IZR.
+    replace (IZR o + IZR (ZnearestE hr) - (IZR a + t * IZR (b - a)))%R
+      with (- (hr - IZR (ZnearestE hr)) + (hr - q))%R
+      by (rewrite hi_q_eq, minus_IZR; ring).
+    eapply Rle_trans; [apply Rabs_triang|]. rewrite Rabs_Ropp.
+    assert (Rabs (hr - q) <= / IZR (2 ^ 22))%R by (apply Rabs_le; lra).
+    pow2. lra.
+Qed.
+
+Lemma hi_tail F1 F2 df P1 P2 p1 p2 :
+  N = p1 - p2 ->
+  freal F1 P1 -> freal F2 P2 -> fint df det ->
+  (Rabs (P1 - IZR p1) <= IZR (Z.abs det) / IZR (2 ^ 26))%R ->
+  (Rabs (P2 - IZR p2) <= IZR (Z.abs det) / IZR (2 ^ 26))%R ->
+  let ip := o + F2I64_rne ((F1 - F2) / df)%float in
+  Z.min a b <= ip <= Z.max a b /\
+  1 * Z.abs ((ip - a) * det - tnum * (b - a)) <= 1 * Z.abs det.
+Proof.
+  intros EN Fr1 Fr2 Fd E1 E2.
+  pose proof hi_q_between as [Q1 Q2].
+  assert (B1 : - 2 ^ 26 <= Z.min a b - o) by lia. assert (B2 : Z.max a b - o <= 2 ^ 26) by lia.
+  apply IZR_le in B1, B2. rewrite opp_IZR in B1.
+  assert (NZr : IZR det <> 0%R) by (apply not_0_IZR; exact NZ).
+  rewrite abs_IZR in E1, E2.
+  assert (PD : (1 <= Rabs (IZR det))%R). { rewrite <- abs_IZR. apply IZR_le. lia. }
+  assert (D53 : (Rabs (IZR det) <= IZR (2 ^ 53))%R). { rewrite <- abs_IZR. apply IZR_le. lia. }
+  set (Dr := Rabs (IZR det)) in *.
+  assert (EqN : IZR N = (q * IZR det)%R) by (unfold q; field; exact NZr).
+  assert (BN : (Rabs (IZR N) <= IZR (2 ^ 26) * Dr)%R).
+  { rewrite EqN, Rabs_mult. fold Dr. apply Rmult_le_compat_r; [lra|]. apply Rabs_le. lra. }
+  (* the subtraction *)
+  assert (EV : (Rabs ((P1 - P2) - IZR N) <= Dr / IZR (2 ^ 25))%R).
+  { rewrite EN, minus_IZR. replace (P1 - P2 - (IZR p1 - IZR p2))%R with ((P1 - IZR p1) - (P2 - IZR p2))%R by ring.
+    eapply Rle_trans; [apply Rabs_triang|]. rewrite Rabs_Ropp. pow2. lra. }
+  assert (BV : (Rabs (P1 - P2) <= IZR (2 ^ 27) * Dr)%R).
+  { replace (P1 - P2)%R with (((P1 - P2) - IZR N) + IZR N)%R by ring.
+    eapply Rle_trans; [apply Rabs_triang|]. pow2. lra. }
+  assert (Fs : freal (F1 - F2)%float (RN (P1 - P2))).
+  { apply freal_sub; [exact Fr1|exact Fr2|]. eapply Rle_trans; [exact BV|]. pow2. lra. }
+  pose proof (RN_err60 _ _ BV) as Es.
+  set (nf := RN (P1 - P2)) in *.
+  assert (En : (Rabs (nf - IZR N) <= Dr / IZR (2 ^ 24))%R).
+  { replace (nf - IZR N)%R with ((nf - (P1 - P2)) + ((P1 - P2) - IZR N))%R by ring.
+    eapply Rle_trans; [apply Rabs_triang|]. pow2. lra. }
+  (* the division *)
+  assert (Ew : (Rabs (nf / IZR det - q) <= / IZR (2 ^ 24))%R).
+  { replace (nf / IZR det - q)%R with ((nf - IZR N) / IZR det)%R by (unfold q; field; exact NZr).
+    unfold Rdiv. rewrite Rabs_mult, Rabs_inv. fold Dr.
+    apply Rmult_le_reg_r with Dr; [lra|]. rewrite Rmult_assoc, Rinv_l by lra. pow2. lra. }
+  assert (Bw : (Rabs (nf / IZR det) <= IZR (2 ^ 27))%R).
+  { replace (nf / IZR det)%R with ((nf / IZR det - q) + q)%R by ring.
+    eapply Rle_trans; [apply Rabs_triang|].
+    assert (Rabs q <= IZR (2 ^ 26))%R by (apply Rabs_le; lra). pow2. lra. }
+  assert (Fh : freal ((F1 - F2) / df)%float (RN (nf / IZR det))).
+  { apply freal_div; [exact Fs|exact Fd|exact NZr|]. eapply Rle_trans; [exact Bw|]. pow2. lra. }
+  pose proof (RN_err60 _ _ Bw) as Eh.
+  apply (hi_finish _ _ Fh).
+  replace (RN (nf / IZR det) - q)%R with ((RN (nf / IZR det) - nf / IZR det) + (nf / IZR det - q))%R by ring.
+  eapply Rle_trans; [apply Rabs_triang|]. pow2. lra.
+Qed.
+End AxisHi.
+
+
+Lemma prod_bound z w D : Z.abs z <= 2 ^ 26 -> 2 * Z.abs w <= D + 2 ^ 27 -> Z.abs (z * w) <= 2 ^ 25 * D + 2 ^ 52.
+Proof. intros Hz Hw. rewrite Z.abs_mul. pose proof (Z.abs_nonneg z). pose proof (Z.abs_nonneg w). nia. Qed.
+
+Lemma hi_axis_full a b o tnum det f1 g1 f2 g2 df z1 w1 z2 w2 :
+  det <> 0 -> 0 < tnum * Z.sgn det < Z.abs det -> Z.abs det <= 2 ^ 53 ->
+  Z.abs a <= 2 ^ 25 -> Z.abs b <= 2 ^ 25 -> Z.abs o <= 2 ^ 25 ->
+  fint f1 z1 -> fint g1 w1 -> fint f2 z2 -> fint g2 w2 -> fint df det ->
+  Z.abs z1 <= 2 ^ 26 -> Z.abs z2 <= 2 ^ 26 ->
+  2 * Z.abs w1 <= Z.abs det + 2 ^ 27 -> 2 * Z.abs w2 <= Z.abs det + 2 ^ 27 ->
+  z1 * w1 - z2 * w2 = (a - o) * det + tnum * (b - a) ->
+  let ip := o + F2I64_rne ((f1 * g1 - f2 * g2) / df)%float in
+  Z.min a b <= ip <= Z.max a b /\
+  1 * Z.abs ((ip - a) * det - tnum * (b - a)) <= 1 * Z.abs det.
+Proof.
+  intros NZ Hfrac Hdet Ha Hb Ho F1 G1 F2 G2 Fd Z1 Z2 W1 W2 HN.
+  assert (HD : 1 <= Z.abs det <= 2 ^ 53) by lia.
+  destruct (prod_approx f1 g1 z1 w1 _ F1 G1 HD (prod_bound _ _ _ Z1 W1)) as (P1 & Fr1 & E1).
+  destruct (prod_approx f2 g2 z2 w2 _ F2 G2 HD (prod_bound _ _ _ Z2 W2)) as (P2 & Fr2 & E2).
+  exact (hi_tail a b o tnum det (z1 * w1 - z2 * w2) NZ Hfrac Hdet HN Ha Hb Ho _ _ df P1 P2 _ _ eq_refl Fr1 Fr2 Fd E1 E2).
+Qed.
+
+Lemma ite_min u v : (if u <? v then u else v) = Z.min u v.
+Proof. destruct (Z.ltb_spec u v); lia. Qed.
+Lemma ite_max u v : (if u <? v then v else u) = Z.max u v.
+Proof. destruct (Z.ltb_spec u v); lia. Qed.
+Lemma shiftr1_spec e : 2 * Z.shiftr e 1 = e - e mod 2 /\ 0 <= e mod 2 <= 1.
+Proof.
+  rewrite Z.shiftr_div_pow2 by lia. change (2 ^ 1) with 2.
+  pose proof (Z.div_mod e 2 ltac:(lia)). pose proof (Z.mod_pos_bound e 2 ltac:(lia)). lia.
+Qed.
+Lemma origin_form x1 x2 x3 x4 e :
+  e = Z.min (Z.max x3 x4) (Z.max x1 x2) + Z.max (Z.min x2 x1) (Z.min x4 x3) ->
+  e = Z.max (Z.min x1 x2) (Z.min x3 x4) + Z.min (Z.max x1 x2) (Z.max x3 x4).
+Proof. lia. Qed.
+Lemma origin_swap x1 x2 x3 x4 :
+  Z.max (Z.min x1 x2) (Z.min x3 x4) + Z.min (Z.max x1 x2) (Z.max x3 x4) =
+  Z.max (Z.min x3 x4) (Z.min x1 x2) + Z.min (Z.max x3 x4) (Z.max x1 x2).
+Proof. lia. Qed.
+Lemma origin_abs x1 x2 x3 x4 o r B :
+  Z.abs x1 <= B -> Z.abs x2 <= B -> Z.abs x3 <= B -> Z.abs x4 <= B ->
+  2 * o = Z.max (Z.min x1 x2) (Z.min x3 x4) + Z.min (Z.max x1 x2) (Z.max x3 x4) - r -> 0 <= r <= 1 ->
+  Z.abs o <= B.
+Proof. lia. Qed.
+
+Lemma properly_cross_u a b c d :
+  properly_cross a b c d = true ->
+  0 < isect_unum a b c d * Z.sgn (isect_det a b c d) < Z.abs (isect_det a b c d).
+Proof.
+  unfold properly_cross. cbv zeta. rewrite !andb_true_iff, negb_true_iff, Z.eqb_neq, !frac_in_open_iff.
+  tauto.
+Qed.
+
+Lemma opp_sides n d : 0 < n * Z.sgn d < Z.abs d ->
+  (n < 0 < n - d \/ n - d < 0 < n) /\ (- n < 0 < d - n \/ d - n < 0 < - n).
+Proof. intros H. destruct (Z.sgn_spec d) as [[? E]|[[? E]|[? E]]]; rewrite E in H; lia. Qed.
+
+(* both auxiliary constants ln0c, ln1c of the hi variant are at most (|det| + 2^27) / 2 *)
+Lemma origin_bounds a b c d ox oy rx ry :
+  coords_le (2 ^ 25) a b c d -> properly_cross a b c d = true ->
+  2 * ox = Z.max (Z.min (px a) (px b)) (Z.min (px c) (px d)) + Z.min (Z.max (px a) (px b)) (Z.max (px c) (px d)) - rx ->
+  0 <= rx <= 1 ->
+  2 * oy = Z.max (Z.min (py a) (py b)) (Z.min (py c) (py d)) + Z.min (Z.max (py a) (py b)) (Z.max (py c) (py d)) - ry ->
+  0 <= ry <= 1 ->
+  2 * Z.abs ((ox - px c) * (py d - py c) - (oy - py c) * (px d - px c)) <= Z.abs (isect_det a b c d) + 2 ^ 27 /\
+  2 * Z.abs ((ox - px a) * (py b - py a) - (oy - py a) * (px b - px a)) <= Z.abs (isect_det a b c d) + 2 ^ 27.
+Proof.
+  intros H PC.
+  pose proof (properly_cross_t _ _ _ _ PC) as [_ Ht]. pose proof (properly_cross_u _ _ _ _ PC) as Hu.
+  destruct (opp_sides _ _ Ht) as [S1 _]. destruct (opp_sides _ _ Hu) as [_ S2]. clear Ht Hu PC.
+  open_coords H.
+  assert (K1 : Z.abs (px d - px c) + Z.abs (py d - py c) <= 2 ^ 27) by (clear S1 S2; lia).
+  assert (K2 : Z.abs (px b - px a) + Z.abs (py b - py a) <= 2 ^ 27) by (clear S1 S2 K1; lia).
+  intros Hox Hrx Hoy Hry.
+  split.
+  - pose proof (origin_line (px a) (py a) (px b) (py b) (px c) (py c) (px d) (py d) ox oy rx ry) as L.
+    cbv zeta in L.
+    assert (Ea : (px a - px c) * (py d - py c) - (py a - py c) * (px d - px c) = isect_tnum a b c d)
+      by (unfold isect_tnum; ring).
+    assert (Eb : (px b - px c) * (py d - py c) - (py b - py c) * (px d - px c) = isect_tnum a b c d - isect_det a b c d)
+      by (unfold isect_tnum, isect_det; ring).
+    rewrite Ea, Eb in L.
+    specialize (L S1 Hox Hrx Hoy Hry).
+    replace (isect_tnum a b c d - isect_det a b c d - isect_tnum a b c d) with (- isect_det a b c d) in L by ring.
+    rewrite Z.abs_opp in L.
+    clear - L K1. lia.
+  - pose proof (origin_line (px c) (py c) (px d) (py d) (px a) (py a) (px b) (py b) ox oy rx ry) as L.
+    cbv zeta in L.
+    assert (Ea : (px c - px a) * (py b - py a) - (py c - py a) * (px b - px a) = - isect_unum a b c d)
+      by (unfold isect_unum; ring).
+    assert (Eb : (px d - px a) * (py b - py a) - (py d - py a) * (px b - px a) = isect_det a b c d - isect_unum a b c d)
+      by (unfold isect_unum, isect_det; ring).
+    rewrite Ea, Eb in L.
+    rewrite <- (origin_swap (px a) (px b) (px c) (px d)), <- (origin_swap (py a) (py b) (py c) (py d)) in L.
+    specialize (L S2 Hox Hrx Hoy Hry).
+    replace (isect_det a b c d - isect_unum a b c d - - isect_unum a b c d) with (isect_det a b c d) in L by ring.
+    clear - L K2. lia.
+Qed.
+
+
+(* 2 |w| <= |det| + 2^27 for w = +- one of the two forms bounded by [origin_bounds] *)
+Ltac lnc_bound G0 G1 :=
+  first
+  [ exact G0 | exact G1
+  | match type of G0 with 2 * Z.abs ?F <= _ =>
+      match goal with |- 2 * Z.abs ?w <= _ =>
+        first [ replace w with F by ring; exact G0
+              | replace w with (- F) by ring; rewrite Z.abs_opp; exact G0 ] end end
+  | match type of G1 with 2 * Z.abs ?F <= _ =>
+      match goal with |- 2 * Z.abs ?w <= _ =>
+        first [ replace w with F by ring; exact G1
+              | replace w with (- F) by ring; rewrite Z.abs_opp; exact G1 ] end end ].
+
+Theorem isect_accuracy_small_hi a b c d ip :
+  coords_le (2 ^ 25) a b c d -> properly_cross a b c d = true ->
+  let r := GetSegmentIntersectPt_hi a b c d ip in
+  fst r = true /\ in_seg_box a b (snd r) = true /\ isect_within 1 1 a b c d (snd r) = true.
+Proof.
+  intros H PC.
+  pose proof (origin_bounds a b c d) as OB. specialize (fun ox oy rx ry => OB ox oy rx ry H PC).
+  apply properly_cross_t in PC. destruct PC as [NZ Hfrac].
+  open_coords H.
+  assert (Hdet : Z.abs (isect_det a b c d) <= 2 ^ 53) by (unfold isect_det; abs_le).
+  unfold GetSegmentIntersectPt_hi. cbv zeta.
+  det_exact.
+  match goal with |- context [?z =? 0] =>
+    assert (Ez : z = isect_det a b c d) by (unfold isect_det; ring); rewrite Ez in * end.
+  destruct (isect_det a b c d =? 0) eqn:E0; [apply Z.eqb_eq in E0; contradiction|]. clear E0 Ez.
+  (* the origin: x *)
+  match goal with |- context [Z.shiftr ?e 1] =>
+    assert (Eox : e = Z.max (Z.min (px a) (px b)) (Z.min (px c) (px d)) +
+                      Z.min (Z.max (px a) (px b)) (Z.max (px c) (px d)))
+      by (clear; rewrite ?ite_min, ?ite_max; lia);
+    destruct (shiftr1_spec e) as [Sox Rox]; rewrite Eox in Sox at 2;
+    set (rx := e mod 2) in *; set (ox := Z.shiftr e 1) in *; clearbody rx ox; clear Eox
+  end.
+  match goal with |- context [Z.shiftr ?e 1] =>
+    assert (Eoy : e = Z.max (Z.min (py a) (py b)) (Z.min (py c) (py d)) +
+                      Z.min (Z.max (py a) (py b)) (Z.max (py c) (py d)))
+      by (clear; rewrite ?ite_min, ?ite_max; lia);
+    destruct (shiftr1_spec e) as [Soy Roy]; rewrite Eoy in Soy at 2;
+    set (ry := e mod 2) in *; set (oy := Z.shiftr e 1) in *; clearbody ry oy; clear Eoy
+  end.
+  destruct (OB ox oy rx ry Sox Rox Soy Roy) as [G1 G0]. clear OB.
+  pose proof (origin_abs _ _ _ _ _ _ _ H H1 H3 H5 Sox Rox) as Hox.
+  pose proof (origin_abs _ _ _ _ _ _ _ H0 H2 H4 H6 Soy Roy) as Hoy.
+  clear Sox Rox Soy Roy.
+  cbn [fst snd]. red_pxy. split; [reflexivity|].
+  match goal with
+  | |- context [(?ox' + F2I64_rne (PrimFloat.div (PrimFloat.sub (PrimFloat.mul ?f1 ?g1) (PrimFloat.mul ?f2 ?g2)) ?ex),
+                 ?oy' + F2I64_rne (PrimFloat.div (PrimFloat.sub (PrimFloat.mul ?f3 ?g3) (PrimFloat.mul ?f4 ?g4)) ?ey))] =>
+    let z1 := zof f1 in let w1 := zof g1 in let z2 := zof f2 in let w2 := zof g2 in
+    let z3 := zof f3 in let w3 := zof g3 in let z4 := zof f4 in let w4 := zof g4 in
+    assert (Ff1 : fint f1 z1) by (fint_prove; unfold small; abs_le);
+    assert (Fg1 : fint g1 w1) by (fint_prove; unfold small; abs_le);
+    assert (Ff2 : fint f2 z2) by (fint_prove; unfold small; abs_le);
+    assert (Fg2 : fint g2 w2) by (fint_prove; unfold small; abs_le);
+    assert (Ff3 : fint f3 z3) by (fint_prove; unfold small; abs_le);
+    assert (Fg3 : fint g3 w3) by (fint_prove; unfold small; abs_le);
+    assert (Ff4 : fint f4 z4) by (fint_prove; unfold small; abs_le);
+    assert (Fg4 : fint g4 w4) by (fint_prove; unfold small; abs_le);
+    assert (Z1 : Z.abs z1 <= 2 ^ 26) by abs_le;
+    assert (Z2 : Z.abs z2 <= 2 ^ 26) by abs_le;
+    assert (Z3 : Z.abs z3 <= 2 ^ 26) by abs_le;
+    assert (Z4 : Z.abs z4 <= 2 ^ 26) by abs_le;
+    assert (W1 : 2 * Z.abs w1 <= Z.abs (isect_det a b c d) + 2 ^ 27) by lnc_bound G0 G1;
+    assert (W2 : 2 * Z.abs w2 <= Z.abs (isect_det a b c d) + 2 ^ 27) by lnc_bound G0 G1;
+    assert (W3 : 2 * Z.abs w3 <= Z.abs (isect_det a b c d) + 2 ^ 27) by lnc_bound G0 G1;
+    assert (W4 : 2 * Z.abs w4 <= Z.abs (isect_det a b c d) + 2 ^ 27) by lnc_bound G0 G1;
+    assert (Ex : z1 * w1 - z2 * w2 = (px a - ox') * isect_det a b c d + isect_tnum a b c d * (px b - px a))
+      by (unfold isect_det, isect_tnum; ring);
+    assert (Ey : z3 * w3 - z4 * w4 = (py a - oy') * isect_det a b c d + isect_tnum a b c d * (py b - py a))
+      by (unfold isect_det, isect_tnum; ring);
+    match goal with Hox' : Z.abs ox' <= 2 ^ 25, Hoy' : Z.abs oy' <= 2 ^ 25 |- _ =>
+      pose proof (hi_axis_full (px a) (px b) ox' _ _ f1 g1 f2 g2 ex _ _ _ _ NZ Hfrac Hdet H H1 Hox'
+                    Ff1 Fg1 Ff2 Fg2 F Z1 Z2 W1 W2 Ex) as [Bx Wx];
+      pose proof (hi_axis_full (py a) (py b) oy' _ _ f3 g3 f4 g4 ey _ _ _ _ NZ Hfrac Hdet H0 H2 Hoy'
+                    Ff3 Fg3 Ff4 Fg4 F Z3 Z4 W3 W4 Ey) as [By Wy]
+    end
+  end.
+  split.
+  - unfold in_seg_box. red_pxy. rewrite !andb_true_iff, !Z.leb_le. lia.
+  - unfold isect_within. cbv zeta. red_pxy. rewrite andb_true_iff, !Z.leb_le.
+    split; assumption.
+Qed.
+
+(* the whole accuracy clause of the property for the rounding variant *)
+Theorem isect_ok_small_hi a b c d ip :
+  coords_le (2 ^ 25) a b c d ->
+  let r := GetSegmentIntersectPt_hi a b c d ip in
+  isect_ok a b c d (fst r) (snd r) = true.
+Proof.
+  intros H. cbv zeta. unfold isect_ok.
+  rewrite (isect_parallel_exact_hi a b c d ip H).
+  destruct (parallel a b c d); [reflexivity|]. cbn [negb andb].
+  destruct (properly_cross a b c d) eqn:PC; [|reflexivity].
+  destruct (isect_accuracy_small_hi a b c d ip H PC) as (_ & B & W).
+  rewrite B, W. reflexivity.
+Qed.
+
+(* the hypotheses are satisfiable *)
+Example isect_accuracy_small_sat :
+  coords_le (2 ^ 25) e25_a e25_b e25_c e25_d /\ properly_cross e25_a e25_b e25_c e25_d = true.
+Proof. split; [coords_by_computation|vm_compute; reflexivity]. Qed.
